@@ -531,6 +531,10 @@ where
     }
 }
 
+#[cfg(linfa_verif)]
+#[path = "verif_hooks_c11.rs"]
+pub mod verif_hooks_c11;
+
 #[cfg(test)]
 mod tests {
     use super::{block_coordinate_descent, coordinate_descent, ElasticNet, MultiTaskElasticNet};
